@@ -234,9 +234,9 @@ func genPts(r *rand.Rand, n int, big bool) [][2]int64 {
 	return p
 }
 
+// rings are OPEN in this geometry library (the WKB encoder closes them, the decoder opens them again)
 func genRing(r *rand.Rand, big bool) [][2]int64 {
-	p := genPts(r, 3+r.Intn(3), big)
-	return append(p, p[0])
+	return genPts(r, 3+r.Intn(3), big)
 }
 
 func genGeom(r *rand.Rand, kind int, empty bool) geomSpec {
@@ -372,12 +372,12 @@ func c12RegressionF9(id int) c12Case {
 	t := tableSpec{Name: "t1", GCol: "geom", GType: "GEOMETRY", Srs: srs, Cols: []colSpec{{Name: "fid", Type: "INTEGER", PK: 1},
 		{Name: "a", Type: "INTEGER", NotNull: true}, {Name: "geom", Type: "GEOMETRY"}, {Name: "b", Type: "TEXT"}, {Name: "c", Type: "REAL"}}}
 	gs := []geomSpec{
-		{Kind: 3, Parts: [][][][2]int64{{{{0, 0}, {10, 0}, {10, 10}, {0, 0}}}}},
+		{Kind: 3, Parts: [][][][2]int64{{{{0, 0}, {10, 0}, {10, 10}}}}},
 		{Kind: 3},
 		{Kind: 1, Parts: [][][][2]int64{{{{5, 50}}}}},
 		{Kind: 2},
 		{Kind: 1}, // POINT EMPTY = (NaN, NaN)
-		{Kind: 6, Parts: [][][][2]int64{{{{-5, -5}, {1, 1}, {2, 0}, {-5, -5}}}}},
+		{Kind: 6, Parts: [][][][2]int64{{{{-5, -5}, {1, 1}, {2, 0}}}}},
 		{Kind: 2, Parts: [][][][2]int64{{{{100, 100}, {101, 101}}}}},
 	}
 	var fs []c12Feat
@@ -434,6 +434,7 @@ func c12Oracle(k c12Case, o c12Obs) []c12Problem {
 		}
 		// the stream this table received, over all calls, and the page structure
 		var fs []c12Feat
+		var seen [][2]int64
 		for _, call := range k.Calls {
 			if call.Table != ts.Name {
 				continue
@@ -445,11 +446,13 @@ func c12Oracle(k c12Case, o c12Obs) []c12Problem {
 					b = len(call.Feats)
 				}
 				writes++ // the INSERT transaction of a non-empty page
+				before, had := bboxOf(seen)
 				for _, f := range call.Feats[a:b] {
-					if !f.G.isEmpty() {
-						writes++ // the UPDATE of gpkg_contents
-						break
-					}
+					seen = append(seen, f.G.flat()...)
+				}
+				// the UPDATE of gpkg_contents changes the file only when the box grows (SQLite does not rewrite an identical record)
+				if after, has := bboxOf(seen); has && (!had || after != before) {
+					writes++
 				}
 			}
 		}
@@ -554,7 +557,7 @@ func c12Oracle(k c12Case, o c12Obs) []c12Problem {
 	}
 	// page structure, as far as SQLite shows it: one writing transaction per non-empty page + one extent update
 	if int(o.C1-o.C0) != writes {
-		bad("number of file-modifying transactions (SQLite change counter) does not match one INSERT transaction per non-empty page plus one extent update per page with a non-empty geometry", o.C1-o.C0, writes)
+		bad("number of file-modifying transactions (SQLite change counter) does not match one INSERT transaction per non-empty page plus one extent update per page that enlarges the bounding box", o.C1-o.C0, writes)
 	}
 	return ps
 }
@@ -760,7 +763,7 @@ func runC12Cases(dir string, cases []c12Case, workers int) (map[int]c12Result, e
 // ---- the property run ------------------------------------------------------------------------------------------------
 
 func runC12(c *hc.Ctx) error {
-	c.CorrInit("Texel.Corr.C12", "theories/Corr/C12.v", 60)
+	c.CorrInit("Texel.Corr.C12", "theories/Corr/C12.v", 40)
 	c.Sum.Rule = "every (page size p in 1..7, feature count n in 0..3p+1) pair several times, plus p in {50,1000}; per case random tables " +
 		"(0-5 attribute columns INTEGER/MEDIUMINT/REAL/DOUBLE/TEXT/TEXT(20), NOT NULL or not, key column first or elsewhere, geometry column first/middle/last, " +
 		"8 geometry type names, srs with an id of its own / pre-seeded id with library content / pre-seeded id with other content), 1-3 tables per file, " +
@@ -770,7 +773,7 @@ func runC12(c *hc.Ctx) error {
 	c.Sum.Oracle = "on the file written by the real TargetGeopackage, read back with database/sql: one row per feature in stream order with equal attribute values and an equal decoded geometry " +
 		"(GeoPackage header srs id and empty flag), rtree = one (key, bbox) entry per row with a non-empty geometry, gpkg_contents extent = bounding box of all written coordinates (NULL if none), " +
 		"PRAGMA table_info / gpkg_contents / gpkg_geometry_columns / gpkg_spatial_ref_sys rows equal the source's, rtree extension registered, " +
-		"SQLite change counter = one transaction per non-empty page + one extent update per page with a non-empty geometry; a run that ends in log.Fatalf is a violation"
+		"SQLite change counter = one transaction per non-empty page + one extent update per page that enlarges the bounding box; a run that ends in log.Fatalf is a violation"
 	c.Sum.Partial = ""
 	c.Sum.TrustedBase = []string{
 		"modelled, not verified: SQLite + go-sqlite3, github.com/go-spatial/geom/encoding/gpkg (Open, UpdateSRS, AddGeometryTable and its rtree triggers, UpdateGeometryExtent, NewBinary/DecodeGeometry)",
@@ -800,7 +803,7 @@ func runC12(c *hc.Ctx) error {
 		cases = []c12Case{k}
 	} else {
 		cases = append(cases, c12RegressionF9(0))
-		reps := c.N(3, 30)
+		reps := c.N(10, 60)
 		if c.Search {
 			reps *= 4
 		}
